@@ -240,6 +240,18 @@ class Check:
         env = dict(os.environ, **GOENV)
         p = subprocess.run(["timeout", str(timeout), self.fpcheck, cmd, cj, out] + (extra or []),
                            env=env, capture_output=True, text=True)
+        if p.returncode == 3 and os.path.exists(out):
+            # a case did not return within its deadline: the harness logged a Timeout event (which no specification
+            # explains) and stopped; the cases after it were not run
+            n_ev, trs = 0, set()
+            for line in open(out):
+                n_ev += 1
+                try:
+                    trs.add(json.loads(line)["tr"])
+                except Exception:
+                    pass
+            self.extra["harness_case_timeout"] = self.extra.get("harness_case_timeout", 0) + 1
+            return dict(events=n_ev, traces=len(trs), timed_out=True), out
         if p.returncode != 0:
             e = Infra("harness %s exited with %d" % (cmd, p.returncode))
             e.stderr = p.stderr
